@@ -429,3 +429,174 @@ Example ack_lost_then_rebinding :
                               (rec 2 2 KApp 3000))) in
   map o_dest (go RSeen) = [2] /\ map o_type (go RSeen) = [TChallenge] /\ go RAuth = [].
 Proof. vm_compute. repeat split; reflexivity. Qed.
+
+
+(* ---------------------------------------------------------------- the summary of the flags *)
+
+Definition SRel (s : sstate) (n : nstate) : Prop :=
+  s_remote s = n_remote n /\ s_wins s = n_wins n /\ SumOk (s_sum s) (n_seen n).
+
+Lemma sumok_update s l ep : SumOk s l -> SumOk (sum_update KMax s ep) (ep :: l).
+Proof.
+  destruct s as [m|]; cbn [SumOk sum_update].
+  - intros [Hin Hmax]. split.
+    + destruct (N.max_spec m ep) as [[_ E]|[_ E]]; rewrite E; [now left | now right].
+    + intros e [He|He]; [subst; lia | apply Hmax in He; lia].
+  - intro E. subst l. split; [now left|]. intros e [He|[]]. subst. lia.
+Qed.
+
+Lemma sum_verdict_seen s st ep seq l :
+  SumOk s (n_seen st) -> sum_verdict s ep seq l = newest_verdict RSeen st ep seq l.
+Proof.
+  unfold sum_verdict, newest_verdict, seen, seen_higher. destruct s as [m|]; cbn [SumOk].
+  - intros [Hin Hmax].
+    assert (Hh : existsb (fun e => ep <? e) (n_seen st) = (ep <? m)).
+    { destruct (N.ltb_spec ep m) as [Hlt|Hge].
+      - apply existsb_exists. exists m. split; [exact Hin | now apply N.ltb_lt].
+      - destruct (existsb (fun e => ep <? e) (n_seen st)) eqn:E; [|reflexivity]. exfalso.
+        apply existsb_exists in E. destruct E as [e [He Hl]]. apply N.ltb_lt in Hl.
+        apply Hmax in He. lia. }
+    rewrite Hh. destruct (N.ltb_spec ep m) as [Hlt|Hge].
+    + cbn [orb negb]. rewrite andb_false_r.
+      destruct ((seq =? 0) && existsb (N.eqb ep) (n_seen st)); reflexivity.
+    + cbn [orb negb]. rewrite andb_true_r.
+      assert (Hs : existsb (N.eqb ep) (n_seen st) = negb (m <? ep)).
+      { destruct (N.ltb_spec m ep) as [Hlt|Hge2]; cbn [negb].
+        - destruct (existsb (N.eqb ep) (n_seen st)) eqn:E; [|reflexivity]. exfalso.
+          apply existsb_exists in E. destruct E as [e [He Hl]]. apply N.eqb_eq in Hl. subst e.
+          apply Hmax in He. lia.
+        - apply existsb_exists. exists m. split; [exact Hin|]. apply N.eqb_eq. lia. }
+      rewrite Hs. reflexivity.
+  - intro E. rewrite E. cbn [existsb orb negb]. rewrite andb_false_r, andb_true_r. reflexivity.
+Qed.
+
+Lemma srun_refines evs : forall s n,
+  SRel s n ->
+  snd (srun KMax s evs) = snd (nrun RSeen n evs) /\
+  SRel (fst (srun KMax s evs)) (fst (nrun RSeen n evs)).
+Proof.
+  induction evs as [|ev evs IH]; intros s n HR; cbn [srun nrun]; [split; [reflexivity | exact HR]|].
+  pose proof HR as (Hr & Hw & Hs).
+  destruct ev as [ep seq|e]; cbn [sstep nstep].
+  - assert (Had : sadmit s ep seq = nadmit n ep seq) by (unfold sadmit, nadmit; now rewrite Hr, Hw).
+    rewrite Had. destruct (nadmit n ep seq).
+    + unfold saccept, naccept. rewrite Hw.
+      destruct (accept NMAXSEQ (win_of ep (n_wins n)) seq) as [w' l].
+      rewrite (sum_verdict_seen (s_sum s) n ep seq l Hs).
+      match goal with |- context [srun KMax ?s1 evs] =>
+        match goal with |- context [nrun RSeen ?n1 evs] =>
+          assert (HR1 : SRel s1 n1) end end.
+      { split; [exact Hr|]. split; [reflexivity|].
+        cbn [s_sum n_seen]. now apply sumok_update. }
+      specialize (IH _ _ HR1).
+      match goal with |- context [srun KMax ?s1 evs] => destruct (srun KMax s1 evs) as [s2 acc] end.
+      match goal with |- context [nrun RSeen ?n1 evs] => destruct (nrun RSeen n1 evs) as [n2 acc'] end.
+      cbn [fst snd] in *. destruct IH as [IH1 IH2]. split; [now rewrite IH1 | exact IH2].
+    + specialize (IH _ _ HR). destruct (srun KMax s evs) as [s2 acc]. destruct (nrun RSeen n evs) as [n2 acc'].
+      exact IH.
+  - assert (HR1 : SRel (sremote e s) (nremote e n)).
+    { unfold sremote, nremote. rewrite Hr. destruct (n_remote n <? e); [|exact HR].
+      split; [reflexivity|]. split; [exact Hw | exact Hs]. }
+    specialize (IH _ _ HR1).
+    destruct (srun KMax (sremote e s) evs) as [s2 acc]. destruct (nrun RSeen (nremote e n) evs) as [n2 acc'].
+    exact IH.
+Qed.
+
+Lemma srel_init r0 : SRel (sinit r0) (ninit r0).
+Proof. split; [reflexivity|]. split; reflexivity. Qed.
+
+(* the summary after a run is the maximum of the epochs of the records admitted in it *)
+Lemma srun_summary evs : forall s l,
+  SumOk (s_sum s) l ->
+  SumOk (s_sum (fst (srun KMax s evs))) (rev (map (fun x => fst (rec_of x)) (snd (srun KMax s evs))) ++ l).
+Proof.
+  induction evs as [|ev evs IH]; intros s l Hs; cbn [srun]; [exact Hs|].
+  destruct ev as [ep seq|e]; cbn [sstep].
+  - destruct (sadmit s ep seq).
+    + unfold saccept. destruct (accept NMAXSEQ (win_of ep (s_wins s)) seq) as [w' lt].
+      match goal with |- context [srun KMax ?s1 evs] =>
+        specialize (IH s1 (ep :: l) (sumok_update _ _ ep Hs)); destruct (srun KMax s1 evs) as [s2 acc] end.
+      cbn [fst snd map rev rec_of] in *. rewrite <- app_assoc. exact IH.
+    + specialize (IH s l Hs). destruct (srun KMax s evs) as [s2 acc]. exact IH.
+  - assert (Hs' : SumOk (s_sum (sremote e s)) l).
+    { unfold sremote. destruct (s_remote s <? e); exact Hs. }
+    specialize (IH _ l Hs'). destruct (srun KMax (sremote e s) evs) as [s2 acc]. exact IH.
+Qed.
+
+(* ---------------------------------------------------------------- running maximum *)
+
+Lemma lex_ltb_lt a b : lex_ltb a b = true <-> lex_lt a b.
+Proof.
+  unfold lex_ltb, lex_lt. rewrite orb_true_iff, andb_true_iff, N.ltb_lt, N.ltb_lt, N.eqb_eq. reflexivity.
+Qed.
+
+Lemma lex_lt_trans a b c : lex_lt a b -> lex_lt b c -> lex_lt a c.
+Proof. destruct a, b, c. unfold lex_lt; cbn [fst snd]. lia. Qed.
+
+Lemma lex_total a b : lex_lt a b \/ a = b \/ lex_lt b a.
+Proof.
+  destruct a as [a1 a2], b as [b1 b2]. unfold lex_lt; cbn [fst snd].
+  destruct (N.lt_total a1 b1) as [H|[H|H]]; [left; left; exact H | | right; right; left; exact H].
+  subst. destruct (N.lt_total a2 b2) as [H|[H|H]];
+    [left; right; split; [reflexivity | exact H] | subst; right; left; reflexivity |
+     right; right; right; split; [reflexivity | exact H]].
+Qed.
+
+Lemma rmax_spec l x : (forall p, In p l -> lex_lt p x) <-> above x (rmax l).
+Proof.
+  induction l as [|y l IH]; cbn [rmax above In].
+  - split; [trivial | intros _ p []].
+  - destruct (rmax l) as [m|]; cbn [above] in *.
+    + destruct (lex_ltb m y) eqn:E.
+      * apply lex_ltb_lt in E. split.
+        -- intro H. apply H. now left.
+        -- intros Hy p [Hp|Hp]; [now subst|]. apply (proj2 IH); [eapply lex_lt_trans; eassumption | exact Hp].
+      * assert (Hn : ~ lex_lt m y) by (intro Hc; apply lex_ltb_lt in Hc; congruence).
+        split.
+        -- intro H. apply (proj1 IH). intros p Hp. apply H. now right.
+        -- intros Hm p [Hp|Hp]; [|exact (proj2 IH Hm p Hp)]. subst p.
+           destruct (lex_total y m) as [Hc|[Hc|Hc]]; [eapply lex_lt_trans; eassumption | now subst | contradiction].
+    + split.
+      * intro H. apply H. now left.
+      * intros Hy p [Hp|Hp]; [now subst|]. exact (proj2 IH I p Hp).
+Qed.
+
+(* THE SUMMARY THAT ONLY MOVES FORWARD: over any stream of authentic protected records and
+   remote-epoch changes (1) the verdicts are those of the per-epoch flags, (2) the summary is the
+   highest epoch in which a record was admitted, (3) a record is judged newest if and only if it is
+   above the running maximum - epoch, then sequence number - of the records admitted before *)
+Theorem newest_is_running_max r0 evs :
+  snd (srun KMax (sinit r0) evs) = snd (nrun RSeen (ninit r0) evs) /\
+  SumOk (s_sum (fst (srun KMax (sinit r0) evs)))
+        (rev (map (fun x => fst (rec_of x)) (snd (srun KMax (sinit r0) evs)))) /\
+  forall pre ep seq v post,
+    snd (srun KMax (sinit r0) evs) = pre ++ (ep, seq, v) :: post ->
+    (v = true <-> above (ep, seq) (rmax (map rec_of pre))).
+Proof.
+  pose proof (srun_refines evs _ _ (srel_init r0)) as [H1 _].
+  split; [exact H1|]. split.
+  - pose proof (srun_summary evs (sinit r0) [] eq_refl) as H. now rewrite app_nil_r in H.
+  - intros pre ep seq v post Heq. rewrite H1 in Heq.
+    rewrite (newest_iff r0 evs pre ep seq v post Heq), <- rmax_spec. split.
+    + intros H p Hp. apply in_map_iff in Hp. destruct Hp as [[[e s] b] [Hx Hi]]. subst p. cbn [rec_of fst].
+      now apply H with b.
+    + intros H e s b Hi. apply H. apply in_map_iff. exists (e, s, b). split; [reflexivity | exact Hi].
+Qed.
+
+(* THE SUMMARY THAT REMEMBERS THE EPOCH ACCEPTED LAST fails, twice.  After records of epoch 4 were
+   admitted, the first stale record of epoch 3 is refused but drags the summary back to 3: the next
+   record of epoch 3 is judged the newest record of the connection; and after one stale record of
+   epoch 3 the late record numbered 0 of epoch 4 is taken for the first of its epoch. *)
+Theorem newest_last_epoch_refuted :
+  let evs1 := [NRecord 3 0; NRecord 3 1; NRemote 4; NRecord 4 0; NRecord 4 1; NRecord 3 5; NRecord 3 6] in
+  let evs2 := [NRecord 3 0; NRemote 4; NRecord 4 1; NRecord 4 2; NRecord 3 5; NRecord 4 0] in
+  snd (srun KLast (sinit 3) evs1) =
+    [(3, 0, true); (3, 1, true); (4, 0, true); (4, 1, true); (3, 5, false); (3, 6, true)] /\
+  snd (srun KMax (sinit 3) evs1) =
+    [(3, 0, true); (3, 1, true); (4, 0, true); (4, 1, true); (3, 5, false); (3, 6, false)] /\
+  s_sum (fst (srun KLast (sinit 3) evs1)) = Some 3 /\ s_sum (fst (srun KMax (sinit 3) evs1)) = Some 4 /\
+  snd (srun KLast (sinit 3) evs2) =
+    [(3, 0, true); (4, 1, true); (4, 2, true); (3, 5, false); (4, 0, true)] /\
+  snd (srun KMax (sinit 3) evs2) =
+    [(3, 0, true); (4, 1, true); (4, 2, true); (3, 5, false); (4, 0, false)].
+Proof. vm_compute. repeat split; reflexivity. Qed.
